@@ -15,7 +15,7 @@ import (
 
 func init() {
 	register(&Prop{ID: "C02", Run: runC02, MinNontrivial: 500,
-		Rule:        "cases = (kind: signed SSO Response, signed assertion under an unsigned Response, bad Response signature over well-signed assertions, LogoutRequest, LogoutResponse) x (signer: store member i of n, untrusted key, trusted certificate with foreign key, same key under another certificate, KeyInfo absent) x (store: 0-3 certificates, RSA/ECDSA, signer's certificate present or not) x (SP clock at NotBefore-1s, NotBefore+1s, middle, NotAfter-1s, NotAfter+1s of the signing certificate) x (tamper: none, signed text altered, signed attribute altered); oracle: signature honoured iff certificate in store and key matches and window contains the injected now and untampered and (KeyInfo present or store size 1); a present but bad signature is an error, never 'accepted unflagged'; evidence counts clock reads whose stack contains verifyCertificate; non-trivial = reached signature processing; distinct by parameter tuple; also stores holding a renewed certificate over the same key, and a store-rollover class (outgoing + incoming certificate in a stock memory store, one SP, clock moving across the hand-over; the store must stay as configured); tamper sig-nested (own signature moved into an Extensions child); same-subject roll-over stores; store members with odd key-usage profiles; KeyInfo-less messages and doubled entries in the store-rollover class",
+		Rule:        "cases = (kind: signed SSO Response, signed assertion under an unsigned Response, bad Response signature over well-signed assertions, LogoutRequest, LogoutResponse) x (signer: store member i of n, untrusted key, trusted certificate with foreign key, same key under another certificate, KeyInfo absent) x (store: 0-3 certificates, RSA/ECDSA, signer's certificate present or not) x (SP clock at NotBefore-1s, NotBefore+1s, middle, NotAfter-1s, NotAfter+1s of the signing certificate) x (tamper: none, signed text altered, signed attribute altered); oracle: signature honoured iff certificate in store and key matches and window contains the injected now and untampered and (KeyInfo present or store size 1); a present but bad signature is an error, never 'accepted unflagged'; evidence counts clock reads whose stack contains verifyCertificate; non-trivial = reached signature processing; distinct by parameter tuple; also stores holding a renewed certificate over the same key, and a store-rollover class (outgoing + incoming certificate in a stock memory store, one SP, clock moving across the hand-over; the store must stay as configured); tamper sig-nested (own signature moved into an Extensions child); same-subject roll-over stores; store members with odd key-usage profiles; KeyInfo-less messages and doubled entries in the store-rollover class; tamper sigmethod-swapped (registered and unknown SignatureMethod / DigestMethod identifiers)",
 		Assumptions: []string{"exact NotBefore/NotAfter instants are not probed (X.509 validity is inclusive; the property says inside)", "wall time is decades away from every certificate window"}})
 }
 
